@@ -74,6 +74,10 @@ func (s *Site) Events() []Event {
 		mention("other")
 	case "mcall.promoted":
 		ev = append(ev, Event{Cat: "MCALL", Fn: s.Fn, Promoted: true})
+	case "var.composite":
+		mention("var") // var v []T / map[string]*T / chan T / [2]T: uses T, creates no T value the statement lists
+	case "lit.composite":
+		mention("lit") // []T{} / map[string]T{}: an empty literal of a composite type built from T
 	case "new":
 		ev = append(ev, Event{Cat: "CTOR", Code: "CTOR02", Type: s.Type})
 		mention("other")
@@ -566,7 +570,7 @@ func ExpectTONL(p *Prog, cfg engine.Config) *Expect {
 				if fn.Recv != nil {
 					code = "TONL03"
 				}
-				if evn.Cat == "REF" || evn.Cat == "MREF" || vis == "variant" || evn.Promoted {
+				if evn.Cat == "REF" || evn.Cat == "MREF" || vis == "variant" {
 					e.may(si.Site.ID, code) // function value not called: left open
 					continue
 				}
